@@ -110,6 +110,19 @@ def trees(draw, max_levels=4, max_leaves=12, min_levels=1, allow_odd=True,
     return data
 
 
+@st.composite
+def shuffled(draw, items):
+    """a permutation of items: Hypothesis' own st.permutations (shrinks towards the identity and rarely
+    strays far from it) half of the time, a uniform shuffle driven by a drawn integer otherwise"""
+    items = list(items)
+    if draw(st.booleans()):
+        return list(draw(st.permutations(items)))
+    import random
+    r = random.Random(draw(st.integers(0, 2**31 - 1)))
+    r.shuffle(items)
+    return items
+
+
 def gene_names(n, prefix='g'):
     return [f'{prefix}{i}' for i in range(n)]
 
@@ -179,7 +192,7 @@ def query_specs(draw, ref_genes, must_include=(), max_cells=16, dtypes=DTYPES,
     n_cells = draw(st.integers(min_cells, max_cells))
     keep = [g for g in ref_genes if g in must_include or draw(st.integers(0, 9)) < 9]
     extra = [f'x{i}' for i in range(draw(st.integers(0, 3)))] if extra_genes else []
-    genes = draw(st.permutations(keep + extra))
+    genes = draw(shuffled(keep + extra))
     id_scheme = draw(st.sampled_from(['c', 'c', 'num', 'uni']))
     if id_scheme == 'c':
         cells = [f'c{i}' for i in range(n_cells)]
@@ -209,8 +222,8 @@ def ref_specs(draw, tree_data, n_genes=None, max_genes=24, min_genes=8, family=N
     leaves = sorted(t.leaves())
     if n_genes is None:
         n_genes = draw(st.integers(min_genes, max_genes))
-    genes = draw(st.permutations(gene_names(n_genes)))
-    rows = draw(st.permutations(list(range(len(leaves)))))
+    genes = draw(shuffled(gene_names(n_genes)))
+    rows = draw(shuffled(list(range(len(leaves)))))
     fam = family or draw(st.sampled_from(['generic'] * 6 + ['identical_pair', 'affine_pair', 'constant', 'zero_gene']))
     return {
         'genes': list(genes),
